@@ -345,9 +345,10 @@ def run_case(ctx, stack, table, doc_name, flavour):
 
 
 def gen(ctx):
-    full = ctx.thorough
+    deep = ctx.thorough
+    full = True
     stacks = [[]]
-    for n in (1, 2, 3):
+    for n in (1, 2, 3) + ((4,) if deep else ()):
         stacks += [list(s) for s in itertools.product(MW_KINDS, repeat=n)]
     k = 0
     names = list(DOCS)
